@@ -687,3 +687,36 @@ Proof.
   rewrite (segs_of_ok _ _ Hs). unfold hp, abs.
   destruct (geto sb (root ++ s)) as [[c m|ch]|]; cbn; auto.
 Qed.
+
+(** The entity tag of a stored file is never empty (so "no tag" means "no resource"
+    exactly, for files; for collections the tag is OS metadata and its non-emptiness
+    is checked on every run by the specification verdict). *)
+Lemma radix_aux_nonempty base fuel n acc :
+  (fuel <> O \/ acc <> ""%string) -> radix_aux base fuel n acc <> ""%string.
+Proof.
+  revert n acc. induction fuel as [|f IH]; intros n acc H; cbn [radix_aux].
+  - destruct H as [H|H]; [congruence|exact H].
+  - destruct (N.eqb (N.div n base) 0); [discriminate|]. apply IH. right. discriminate.
+Qed.
+
+Theorem file_tag_nonempty m size : etag_of m size <> ""%string.
+Proof.
+  unfold etag_of, hex. intros H.
+  destruct (radix_aux 16 (S (N.to_nat (N.size m))) m "") eqn:E.
+  - apply (radix_aux_nonempty 16 (S (N.to_nat (N.size m))) m ""%string) in E; [exact E|left; discriminate].
+  - discriminate.
+Qed.
+
+(** With "tag non-empty iff the resource exists", the table reads with explicit
+    existence: If-Match needs the resource; If-None-Match passes without it. *)
+Theorem cond_table_existence tag r (ex : bool) :
+  (ex = true <-> tag <> ""%string) ->
+  cond_refusals tag r = [] ->
+  (h_if_match r = ""%string \/ ex = true) .
+Proof.
+  intros Hex H. unfold cond_refusals in H. apply app_eq_nil in H. destruct H as [H _].
+  unfold if_match_refusals in H.
+  destruct (String.eqb (h_if_match r) "") eqn:E1; [left; apply String.eqb_eq; exact E1|].
+  destruct (String.eqb tag "") eqn:E2; [discriminate|].
+  right. apply Hex. apply String.eqb_neq. exact E2.
+Qed.
